@@ -1241,6 +1241,89 @@ def emitKeyNew (cfg : Cfg) (st : St) : Out St := do
       if st.term.freed then .ub .mem "terminal freed while its bindings are being run"
       else pure { st with termIter := false }
 
+/-- A change of the root window's own fields (`root->mouse_*`, `root->drag_source_window`). -/
+def setRoot (st : St) (f : WinTree.Root → WinTree.Root) : St := { st with tree := { st.tree with root := f st.tree.root } }
+
+/-- `on_term_mouse`, DRAG while dragging: the drag source is told when the event went elsewhere (`DRAG_OUTSIDE`). -/
+def dragOutside (cfg : Cfg) (fuel : Nat) (st : St) (info : Mouse) (handled : Option Id) : Out St :=
+  if info.type = mDRAG then do
+    let _ ← getW st 0
+    match st.tree.root.dragSource with
+    | some src =>
+      if handled ≠ some src then do
+        let g ← absGeom st.tree src
+        let r ← handleMouse cfg fuel st src ⟨mDRAG_OUTSIDE, info.button, info.line - g.top, info.col - g.left⟩
+        unrefOpt cfg r.1 r.2
+      else pure st
+    | none => pure st
+  else pure st
+
+/-- The reference `on_term_mouse` holds on the root window across its dispatches is given back. -/
+def dropRoot (cfg : Cfg) (st : St) : Out St := if cfg.mouseKeepsRoot then unrefW cfg st 0 else pure st
+
+/-- The end of `on_term_mouse`: the event itself goes down the tree, then `DRAG_OUTSIDE`, then the references go. -/
+def mouseDeliver (cfg : Cfg) (fuel : Nat) (st : St) (info : Mouse) : Out (St × Bool) := do
+  let r ← handleMouse cfg fuel st 0 info
+  let st ← dragOutside cfg fuel r.1 info r.2
+  let st ← unrefOpt cfg st r.2
+  let st ← dropRoot cfg st
+  pure (st, r.2.isSome)
+
+/-- The window that took `DRAG_START` becomes the drag source if it is still in the tree; its counted reference goes. -/
+def dragSourceSet (cfg : Cfg) (st : St) : Option Id → Out St
+  | some src => do
+    let inTree ← reachesTop st.tree (chainFuel st.tree) src 0 false
+    let st := if inTree then setRoot st (fun r => { r with dragSource := some src }) else st
+    unrefW cfg st src
+  | none => pure st
+
+/-- `on_term_mouse`, first DRAG: `DRAG_START` at the position of the last press. -/
+def mouseDragStart (cfg : Cfg) (fuel : Nat) (st : St) : Out St := do
+  let d : Mouse := if st.pressSeen || cfg.lastPressInit
+    then ⟨mDRAG_START, st.tree.root.mouseLastButton, st.tree.root.mouseLastLine, st.tree.root.mouseLastCol⟩
+    else ⟨mDRAG_START, uninitInt, uninitInt, uninitInt⟩
+  let r ← handleMouse cfg fuel st 0 d
+  let _ ← getW r.1 0
+  let st ← dragSourceSet cfg (setRoot r.1 (fun r => { r with dragSource := none })) r.2
+  let _ ← getW st 0
+  pure (setRoot st (fun r => { r with mouseDragging := true }))
+
+/-- `DRAG_STOP` to the drag source. -/
+def dragStop (cfg : Cfg) (fuel : Nat) (st : St) (info : Mouse) : Out St :=
+  match st.tree.root.dragSource with
+  | some src => do
+    let g ← absGeom st.tree src
+    let r ← handleMouse cfg fuel st src ⟨mDRAG_STOP, info.button, info.line - g.top, info.col - g.left⟩
+    unrefOpt cfg r.1 r.2
+  | none => pure st
+
+/-- `on_term_mouse`, RELEASE while dragging: `DRAG_DROP` down the tree, `DRAG_STOP` to the source. -/
+def mouseRelease (cfg : Cfg) (fuel : Nat) (st : St) (info : Mouse) : Out St := do
+  let r ← handleMouse cfg fuel st 0 { info with type := mDRAG_DROP }
+  let st ← unrefOpt cfg r.1 r.2
+  let _ ← getW st 0
+  let st ← dragStop cfg fuel st info
+  let _ ← getW st 0
+  pure (setRoot st (fun r => { r with mouseDragging := false }))
+
+/-- What `on_term_mouse` does before the event itself goes down the tree. -/
+def mousePrepare (cfg : Cfg) (fuel : Nat) (st : St) (info : Mouse) : Out St :=
+  if info.type = mPRESS then
+    pure { (setRoot st (fun r => { r with mouseLastButton := info.button, mouseLastLine := info.line, mouseLastCol := info.col })) with pressSeen := true }
+  else if info.type = mDRAG && !st.tree.root.mouseDragging then mouseDragStart cfg fuel st
+  else if info.type = mRELEASE && st.tree.root.mouseDragging then mouseRelease cfg fuel st info
+  else pure st
+
+/-- The reference `on_term_mouse` takes on the root window. -/
+def keepRoot (cfg : Cfg) (st : St) : Out St := if cfg.mouseKeepsRoot then refW st 0 else pure st
+
+/-- The body of `on_term_mouse` (the root window is alive): the state after it and its result `!!handled`. -/
+def onTermMouse (cfg : Cfg) (st : St) (info : Mouse) : Out (St × Bool) := do
+  let fuel := routeFuel st
+  let st ← keepRoot cfg st
+  let st ← mousePrepare cfg fuel st info
+  mouseDeliver cfg fuel st info
+
 /-- `on_term_mouse` through `tickit_term_emit_mouse`. -/
 def emitMouseNew (cfg : Cfg) (st : St) (info : Mouse) : Out St := do
   if st.term.freed then .ub .mem "emit on freed terminal" else
@@ -1250,54 +1333,7 @@ def emitMouseNew (cfg : Cfg) (st : St) (info : Mouse) : Out St := do
     if r.freed then pure st
     else do
       let st := { st with termIter := true }
-      let fuel := routeFuel st
-      let st ← if cfg.mouseKeepsRoot then refW st 0 else pure st
-      let root (st : St) := st.tree.root
-      let setRoot (st : St) (f : WinTree.Root → WinTree.Root) : St := { st with tree := { st.tree with root := f st.tree.root } }
-      let st ← if info.type = mPRESS then
-          pure { (setRoot st (fun r => { r with mouseLastButton := info.button, mouseLastLine := info.line, mouseLastCol := info.col })) with pressSeen := true }
-        else if info.type = mDRAG && !(root st).mouseDragging then do
-          let d : Mouse := if st.pressSeen || cfg.lastPressInit
-            then ⟨mDRAG_START, (root st).mouseLastButton, (root st).mouseLastLine, (root st).mouseLastCol⟩
-            else ⟨mDRAG_START, uninitInt, uninitInt, uninitInt⟩
-          let (st, source) ← handleMouse cfg fuel st 0 d
-          let _ ← getW st 0
-          let st := setRoot st (fun r => { r with dragSource := none })
-          let st ← match source with
-            | some src => do
-              let inTree ← reachesTop st.tree (chainFuel st.tree) src 0 false
-              let st := if inTree then setRoot st (fun r => { r with dragSource := some src }) else st
-              unrefW cfg st src
-            | none => pure st
-          let _ ← getW st 0
-          pure (setRoot st (fun r => { r with mouseDragging := true }))
-        else if info.type = mRELEASE && (root st).mouseDragging then do
-          let (st, dropped) ← handleMouse cfg fuel st 0 { info with type := mDRAG_DROP }
-          let st ← unrefOpt cfg st dropped
-          let _ ← getW st 0
-          let st ← match (root st).dragSource with
-            | some src => do
-              let g ← absGeom st.tree src
-              let (st, stopped) ← handleMouse cfg fuel st src ⟨mDRAG_STOP, info.button, info.line - g.top, info.col - g.left⟩
-              unrefOpt cfg st stopped
-            | none => pure st
-          let _ ← getW st 0
-          pure (setRoot st (fun r => { r with mouseDragging := false }))
-        else pure st
-      let (st, handled) ← handleMouse cfg fuel st 0 info
-      let st ← if info.type = mDRAG then do
-          let _ ← getW st 0
-          match (root st).dragSource with
-          | some src =>
-            if handled ≠ some src then do
-              let g ← absGeom st.tree src
-              let (st, outside) ← handleMouse cfg fuel st src ⟨mDRAG_OUTSIDE, info.button, info.line - g.top, info.col - g.left⟩
-              unrefOpt cfg st outside
-            else pure st
-          | none => pure st
-        else pure st
-      let st ← unrefOpt cfg st handled
-      let st ← if cfg.mouseKeepsRoot then unrefW cfg st 0 else pure st
+      let (st, _) ← onTermMouse cfg st info
       if st.term.freed then .ub .mem "terminal freed while its bindings are being run"
       else pure { st with termIter := false }
 
